@@ -1,1 +1,7 @@
 import LabtechModel.Model.Run
+import LabtechModel.Driver.RunCmd
+import LabtechModel.Proofs.Limit
+import LabtechModel.Proofs.Limit2
+import LabtechModel.Proofs.Workers
+import LabtechModel.Proofs.Plan
+import LabtechModel.Props.C04
